@@ -7,6 +7,7 @@ import re
 from .. import sqlt
 from ..execmodel import ExecHooks, FullHooks, descriptors, lit, make_session, node, table
 from ..interp import Hooks, explore
+from ..model import AnalysisError
 from ..values import Const, Lst, NodeV, Str, Sym, tagof
 from .c02 import rule_ident_compare, rule_keyword_compare
 from .common import text_of
@@ -63,10 +64,38 @@ KIND = {"update": "updated", "delete": "deleted", "insert": "inserted", "update+
         "insert(no column list)": "inserted"}
 
 
+PARTS = {"_create_merge_candidates": "candidates", "_mutations": "mutations", "_counts": "counts"}
+
+
+def call_part(prog, I, fname, merge_node):
+    """The `fname` part of the MERGE explode (the helper-table statement / the mutation statements / the counting statement) for
+    one MERGE: the module-level function of that name when there is one, else — the explode restructured into a class, one
+    function, … — the corresponding slice of what the public `merge()` returns ([helper, *mutations, counts])."""
+    if prog.has_fn("transforms_merge", fname) and "." not in fname:
+        return I.call(I.global_lookup("transforms_merge", fname), [merge_node], {}, None)
+    whole = I.force(I.call(I.global_lookup("transforms_merge", "merge"), [merge_node], {}, None))
+    items = whole.items if isinstance(whole, Lst) and not whole.open else None
+    if not items or len(items) < 2:
+        raise AnalysisError(f"C12: cannot locate the {PARTS[fname]} part of the MERGE explode")
+    return {"candidates": items[0], "mutations": Lst(list(items[1:-1])), "counts": items[-1]}[PARTS[fname]]
+
+
+def has_part(prog, fname):
+    return prog.has_fn("transforms_merge", fname) or prog.has_fn("transforms_merge", "merge")
+
+
+def _own_parses(p):
+    """keep, of the path's parse effects, those that produced this part's statements (the whole explode ran on the path)"""
+    nodes = p.value.items if isinstance(p.value, Lst) else [p.value]
+    p.effects = [e for e in p.effects if e[0] != "parse" or len(e) < 6 or any(e[5] is n_ or getattr(n_, "copy_of", None) is e[5] for n_ in nodes)]
+    return p
+
+
 def _run(prog, fname):
     out = []
-    for p in explore(prog, lambda: ExecHooks(None), lambda I: I.call(I.global_lookup("transforms_merge", fname), [merge_descriptor()], {}, None), max_paths=32):
-        out.append(p)
+    whole = not (prog.has_fn("transforms_merge", fname) and "." not in fname)
+    for p in explore(prog, lambda: ExecHooks(None), lambda I: call_part(prog, I, fname, merge_descriptor()), max_paths=64):
+        out.append(_own_parses(p) if whole and p.outcome == "return" else p)
     return out
 
 
@@ -220,9 +249,9 @@ def rule_quoted_identifiers_kept(ctx):
     m = prog.mod("transforms_merge")
     n = 0
     for fname in ("_mutations", "_create_merge_candidates"):
-        if not prog.has_fn("transforms_merge", fname):
+        if not has_part(prog, fname):
             continue
-        for p in explore(prog, lambda: ExecHooks(None), lambda I, fname=fname: I.call(I.global_lookup("transforms_merge", fname), [merge()], {}, None),
+        for p in explore(prog, lambda: ExecHooks(None), lambda I, fname=fname: call_part(prog, I, fname, merge()),
                          max_paths=32):
             if p.outcome != "return":
                 continue
@@ -285,9 +314,9 @@ def rule_conditions_keep_grouping(ctx):
     m = prog.mod("transforms_merge")
     n = 0
     for fname in ("_create_merge_candidates", "_mutations", "_counts"):
-        if not prog.has_fn("transforms_merge", fname):
+        if not has_part(prog, fname):
             continue
-        for p in explore(prog, lambda: ExecHooks(None), lambda I, fname=fname: I.call(I.global_lookup("transforms_merge", fname), [merge()], {}, None),
+        for p in explore(prog, lambda: ExecHooks(None), lambda I, fname=fname: call_part(prog, I, fname, merge()),
                          max_paths=32):
             if p.outcome != "return":
                 continue
